@@ -309,6 +309,20 @@ class Gen:
                     evs.append("call %d iter_next" % tid)
                     open_iters[tid] -= 1
                 else:
+                    if r.random() < 0.3 and cfg["clients"] > 1:
+                        # directed: a key repeated in the iterator, read once, then overwritten or deleted (and the command
+                        # executed) before its second occurrence is read
+                        k = r.choice(keys)
+                        mid = [r.choice(keys + [99])] if r.random() < 0.4 else []
+                        other = r.choice([t for t in range(cfg["clients"]) if t != tid])
+                        evs.append("call %d %s %s" % (tid, r.choice(["iter_open", "iter_open_map"]), ",".join(str(x) for x in [k] + mid + [k])))
+                        evs.extend(["call %d iter_next" % tid] * (1 + len(mid)))
+                        evs.append(r.choice(["call %d upsert %d %d - - 0" % (other, k, self.tok()), "call %d delete %d" % (other, k)]))
+                        nacks += 1
+                        evs.extend(["worker"] * r.randint(1, 3))
+                        evs.append("call %d iter_next" % tid)
+                        evs.append("call %d iter_next" % tid)
+                        continue
                     ks = [r.choice(keys + [99]) for _ in range(r.randint(2, 4))]
                     if r.random() < 0.6:
                         ks[r.randrange(len(ks))] = ks[0]
